@@ -189,8 +189,27 @@ class C12(Monitor):
                 thr = self.rnd.choice(ranges) + self.rnd.choice([-0.5, 0.0, 0.5]) if ranges and self.rnd.random() < 0.7 else self.rnd.choice([0.0, 5.0, 20.0, 60.0])
                 cfg2 = cfg._replace(valid_dispatch_states=states, matching_range_km_threshold=max(0.0, thr), base_charging_range_km_threshold=self.rnd.choice([0.0, 20.0, 100.0, thr + 10]))
                 env2 = env._replace(config=env.config._replace(dispatcher=cfg2))
-                _, ins = Dispatcher(cfg2).generate_instructions(s, env2)
+                s2 = s
+                if len(env.fleet_ids) > 0 and rep == 1 and s.requests:
+                    # a co-simulation client may add requests of no fleet to a fleets scenario (the file reader
+                    # refuses them, add_request_safe does not): turn some waiting requests - assigned ones
+                    # included - into public ones through the public state operations
+                    import dataclasses
+
+                    from nrel.hive.model.membership import Membership
+                    from nrel.hive.state.simulation_state import simulation_state_ops as sso
+                    from returns.result import Failure
+
+                    for r in s.get_requests():
+                        if self.rnd.random() < 0.35:
+                            res = sso.modify_request_safe(s2, dataclasses.replace(r, membership=Membership()))
+                            if not isinstance(res, Failure):
+                                s2 = res.unwrap()
+                                ctx.count("c12_public_requests_in_fleet_states")
+                                if r.dispatched_vehicle:
+                                    ctx.count("c12_assigned_public_requests")
+                _, ins = Dispatcher(cfg2).generate_instructions(s2, env2)
                 ctx.count("c12_direct_invocations")
-                check_dispatch(s, env2, ins, ctx.violate, ctx.count, ctx.seen)
+                check_dispatch(s2, env2, ins, ctx.violate, ctx.count, ctx.seen)
                 for st in states:
                     ctx.seen("c12_dispatchable_states", st)
